@@ -508,6 +508,12 @@ def np_ones(ex, args, kw):
 
 @lib(NP, "empty")
 def np_empty(ex, args, kw):
+    dt = kw.get("dtype", args[1] if len(args) > 1 else None)
+    n = args[0]
+    n = as_const(n) if is_z3(n) else n
+    if dtype_of(dt, None) == "object" and isinstance(n, int) and not isinstance(n, bool) and 0 <= n <= 16:
+        # a short 1-D object array (names, paths): a vector of None cells that item / index-list assignment fills
+        return Vec([None] * n, "array")
     return _filled(ex, args, kw, None)
 
 
